@@ -4,6 +4,7 @@ Oracle: O3 - after erasing exactly the rewrites documented for the enabled optio
 are structurally identical; options that are off contribute no rule. Output must compile.
 """
 import ast
+import os
 import base64
 
 from vf import common, options, pool, runner
@@ -171,13 +172,51 @@ def main(tier, seed):
             slim['src'] = c['src']
         run.add(slim, r)
     pool.run_cases(O_cases(tier, seed), 'vf.props.C05:run_O_case', timeout=120, batch=4, on_result=on_O, deadline=run.deadline)
+    # ---- the same -O equivalence with minifier and program inside every other interpreter started with -O (asserts and `if __debug__` are then dead
+    # code for the interpreter itself): run(P) must equal run(minify(P, removals on))
+    ocases = []
+    for c in O_cases(tier, seed):
+        if not str(c['shape']).startswith('trigger'):
+            continue
+        ocases.append({'op': 'run', 'shape': c['shape'], 'src': c['src'], 'optsets': [[n, o] for n, o in c['optsets'][:3]], 'case_timeout': 40})
+    ocases = ocases[:(150 if tier == 'quick' else 100000)]
+    for version, py in common.interpreters():
+        if version == '3.12-venv' or run.timed_out():
+            continue
+        if tier == 'quick' and version not in ('2.7.18', '3.6.15', '3.9.18', '3.13.0'):
+            continue
+
+        def on_xo(c, r, version=version):
+            slim = {'shape': c['shape'], 'layer': 'optimize-cross', 'interpreter': version}
+            if 'inconclusive' in r and r.get('status') is None:
+                run.add(slim, r)
+                return
+            out = {'status': r.get('status'), 'violations': [], 'counters': {}, 'nontrivial': []}
+            if r.get('status') == 'skip':
+                out['reason'] = 'optimize-cross: ' + r.get('reason', 'skip')
+            elif r.get('status') in ('held', 'violation'):
+                out['counters'] = {'optimize_cross_interpreter_runs': r.get('variants', 0)}
+                run.cell('optimize_cross_interpreter', version)
+                if r.get('changed'):
+                    out['nontrivial'] = ['Ox|%s|%s' % (version, common.sha(c['src']))]
+            for v in r.get('violations') or []:
+                out['violations'].append({'mech': compile_time_effect(c['src']), 'detail': '%s -O: output of [%s] behaves differently from the input: %s' % (version, v.get('optset'), v['detail']),
+                                          'witness': {'interpreter': version, 'opts': v.get('opts'), 'out': v.get('out')}})
+            if out['violations']:
+                slim['src'] = c['src']
+                slim['optsets'] = c['optsets']
+            run.add(slim, out)
+        env = common.clean_env()
+        env['PYTHONPATH'] = common.REPO_SRC
+        pool.run_cases(ocases, None, cmd=[py, '-O', '-W', 'ignore', os.path.join(common.VERIF, 'vf', 'compat_worker.py')], env=env, timeout=60, batch=8, on_result=on_xo,
+                       deadline=run.deadline, nworkers=6)
     return run.finish(
         rule='every option\'s trigger statement and each near-miss of its side condition in 21 contexts (module, def, class, if/elif/else, for/while '
              '(+else), try/except/else/finally, except*, with, match-case, nested, async) x {single-on from all-off, single-off from all-on, all-off, '
              'default, all-on, pairwise, random}; seeds, random modules and stdlib files x standard / pairwise / random option sets; '
              'non-trivial/distinct = distinct (source, option set) where the output differs from the input and a documented rule fired',
         assumptions=['vf/oracle/matcher.py encodes docs/source/transforms/*.rst; an implementation may rewrite less than documented, never more'],
-        min_nontrivial=150, required_counters=['matcher_runs', 'foreign_outputs_compared', 'optimize_equivalence_runs'])
+        min_nontrivial=150, required_counters=['matcher_runs', 'foreign_outputs_compared', 'optimize_equivalence_runs', 'optimize_cross_interpreter_runs'])
 
 
 def replay(path):
